@@ -82,8 +82,15 @@ func dataOnly(o ugo.Object) bool {
 	return false
 }
 
+// stepLimit bounds every traced run deterministically: a generated program that does not terminate
+// (or runs longer than the models' fuel) is reported as `out=timeout` and skipped by every stream,
+// instead of being cut off by a wall-clock watchdog at a timing-dependent point.
+const stepLimit = 400000
+
 type traceRec struct {
-	steps int
+	abort    func()
+	timedOut bool
+	steps    int
 	hash  uint64
 	full  []string
 	keep  bool
@@ -91,6 +98,10 @@ type traceRec struct {
 
 func (t *traceRec) hook(fi, ip, sp, nh int, op byte) {
 	t.steps++
+	if t.steps == stepLimit && t.abort != nil {
+		t.timedOut = true
+		t.abort()
+	}
 	st := func(h uint64, x int) uint64 { return (h*1000003 + uint64(x) + 1) % 2147483647 }
 	h := t.hash
 	h = st(h, fi)
@@ -135,6 +146,7 @@ func runTraced(vm *ugo.VM, bc *ugo.Bytecode, recoverOn bool, globals ugo.Object,
 		vm = ugo.NewVM(bc)
 	}
 	vm.SetRecover(recoverOn)
+	tr.abort = vm.Abort
 	done := make(chan struct{})
 	var ret ugo.Object
 	var err error
@@ -146,9 +158,13 @@ func runTraced(vm *ugo.VM, bc *ugo.Bytecode, recoverOn bool, globals ugo.Object,
 	}()
 	select {
 	case <-done:
-	case <-time.After(1 * time.Second):
+	case <-time.After(5 * time.Second):
+		tr.timedOut = true
 		vm.Abort()
 		<-done
+	}
+	if tr.timedOut {
+		return fmt.Sprintf("out=timeout\tsteps=%d\tth=0\tglobals=-", tr.steps), tr
 	}
 	g := vm.GetGlobals()
 	gs := "onil:0"
@@ -202,6 +218,14 @@ func init() {
 				impl, tr := runTraced(nil, bc, rec, ugo.Map{}, args, false)
 				cls := strings.SplitN(strings.TrimPrefix(impl, "out="), " ", 2)[0]
 				c.Count("outcome:" + cls)
+				if tr.timedOut {
+					c.Count("skipped:step-limit")
+					continue
+				}
+				if strings.Contains(impl, codec.Cyclic) {
+					c.Count("skipped:cyclic-value")
+					continue
+				}
 				key := ""
 				if tr.steps > 10 {
 					key = fmt.Sprintf("%s/%d", cls, tr.hash%997)
